@@ -165,58 +165,213 @@ func ruleValidateDP(c *Ctx, r *Rep) {
 		r.Undecided("shape:"+fk, c.FnPos(fn), "inner loop header does not end in a test")
 		return
 	}
-	var got [][]literal
+	// the recurrence, path by path: every way through one round of the inner loop, with boolean variables and
+	// short-circuit results resolved along the path; the value the cell ends up with is compared with
+	// (j < len ∧ equal ∧ fits[i+1][j+1]) ∨ (optional ∧ fits[i+1][j]) for every value of the conditions the path did not test
+	canon := func(a string) string {
+		switch {
+		case strings.Contains(a, ".Equal(") && strings.Contains(a, "[i]") && strings.Contains(a, "[j]"):
+			return "equal"
+		case strings.HasPrefix(a, "j<len("):
+			return "inrange"
+		case strings.HasSuffix(a, "[i].Optional"):
+			return "optional"
+		case a == "fits[i+1][j+1]":
+			return "f11"
+		case a == "fits[i+1][j]":
+			return "f10"
+		}
+		return a
+	}
+	// atomOf renders a (phi-resolved) boolean value as canonical atom + polarity; constants are reported separately
+	type bval struct {
+		isConst bool
+		c       bool
+		atom    string
+		pos     bool
+	}
+	phis := map[*ssa.Phi]ssa.Value{}
+	var evalB func(v ssa.Value) bval
+	evalB = func(v ssa.Value) bval {
+		neg := false
+		for i := 0; i < 20; i++ {
+			if phi, ok := v.(*ssa.Phi); ok {
+				if pv, ok := phis[phi]; ok {
+					v = pv
+					continue
+				}
+			}
+			if u, ok := v.(*ssa.UnOp); ok && u.Op == token.NOT {
+				v, neg = u.X, !neg
+				continue
+			}
+			break
+		}
+		if k, ok := v.(*ssa.Const); ok && k.Value != nil {
+			return bval{isConst: true, c: constBool(k) != neg}
+		}
+		a := d.val(v)
+		pos := !neg
+		// j >= len, j == len, j != len: the index never exceeds len
+		for _, alt := range []struct {
+			op  string
+			neg bool
+		}{{"j>=len(", true}, {"j==len(", true}, {"j!=len(", false}} {
+			if strings.HasPrefix(a, alt.op) {
+				a = "j<len(" + a[len(alt.op):]
+				if alt.neg {
+					pos = !pos
+				}
+			}
+		}
+		return bval{atom: canon(a), pos: pos}
+	}
+	type cell struct {
+		set bool
+		v   bval
+	}
+	var mism []string
+	seenAtoms := map[string]bool{}
+	nPaths := 0
+	var walkR func(prev, b *ssa.BasicBlock, asg map[string]bool, order []string, cur cell, seen map[*ssa.BasicBlock]bool)
+	walkR = func(prev, b *ssa.BasicBlock, asg map[string]bool, order []string, cur cell, seen map[*ssa.BasicBlock]bool) {
+		if nPaths > 500 {
+			return
+		}
+		saved := map[*ssa.Phi]ssa.Value{}
+		for k, v := range phis {
+			saved[k] = v
+		}
+		defer func() { phis = saved }()
+		if prev != nil {
+			for i, p := range b.Preds {
+				if p != prev {
+					continue
+				}
+				for _, ins := range b.Instrs {
+					phi, isPhi := ins.(*ssa.Phi)
+					if !isPhi {
+						break
+					}
+					v := phi.Edges[i]
+					if inner2, ok := v.(*ssa.Phi); ok {
+						if pv, ok := phis[inner2]; ok {
+							v = pv
+						}
+					}
+					phis[phi] = v
+				}
+				break
+			}
+		}
+		if b == inner {
+			// end of the round: compare
+			nPaths++
+			var free []string
+			val := map[string]bool{}
+			for _, k := range []string{"inrange", "equal", "f11", "optional", "f10"} {
+				if v, ok := asg[k]; ok {
+					val[k] = v
+				} else {
+					free = append(free, k)
+				}
+			}
+			for mask := 0; mask < 1<<len(free); mask++ {
+				for i, k := range free {
+					val[k] = mask&(1<<i) != 0
+				}
+				want := (val["inrange"] && val["equal"] && val["f11"]) || (val["optional"] && val["f10"])
+				got := false
+				switch {
+				case !cur.set:
+				case cur.v.isConst:
+					got = cur.v.c
+				default:
+					v, known := val[cur.v.atom]
+					if !known {
+						if av, ok := asg[cur.v.atom]; ok {
+							v, known = av, true
+						}
+					}
+					if !known {
+						mism = append(mism, "the cell takes the value of something outside the recurrence: "+cur.v.atom)
+						continue
+					}
+					got = v == cur.v.pos
+				}
+				if got != want {
+					mism = append(mism, sprintf("cell is %v, expected %v, on path [%s] with inrange=%v equal=%v fits[i+1][j+1]=%v optional=%v fits[i+1][j]=%v", got, want, strings.Join(order, " "), val["inrange"], val["equal"], val["f11"], val["optional"], val["f10"]))
+				}
+			}
+			return
+		}
+		if seen[b] {
+			return
+		}
+		seen[b] = true
+		defer delete(seen, b)
+		for _, ins := range b.Instrs {
+			switch x := ins.(type) {
+			case *ssa.Store:
+				for _, s := range inLoopStores {
+					if s.st == x {
+						cur = cell{true, evalB(x.Val)}
+					}
+				}
+			case *ssa.Return:
+				mism = append(mism, "the round returns at "+c.Pos(x.Pos()))
+				return
+			case *ssa.If:
+				bv := evalB(x.Cond)
+				if bv.isConst {
+					if bv.c {
+						walkR(b, b.Succs[0], asg, order, cur, seen)
+					} else {
+						walkR(b, b.Succs[1], asg, order, cur, seen)
+					}
+					return
+				}
+				seenAtoms[bv.atom] = true
+				if v, ok := asg[bv.atom]; ok {
+					if v == bv.pos {
+						walkR(b, b.Succs[0], asg, order, cur, seen)
+					} else {
+						walkR(b, b.Succs[1], asg, order, cur, seen)
+					}
+					return
+				}
+				for _, v := range []bool{true, false} {
+					na := map[string]bool{}
+					for k, x2 := range asg {
+						na[k] = x2
+					}
+					na[bv.atom] = v
+					no := append(append([]string{}, order...), sprintf("%s=%v", bv.atom, v))
+					if v == bv.pos {
+						walkR(b, b.Succs[0], na, no, cur, seen)
+					} else {
+						walkR(b, b.Succs[1], na, no, cur, seen)
+					}
+				}
+				return
+			}
+		}
+		for _, sx := range succs(b) {
+			walkR(b, sx, asg, order, cur, seen)
+		}
+	}
 	for _, s := range inLoopStores {
 		if s.o != d.o || s.n != d.n || s.tab != d.table {
 			r.Undecided("shape:"+fk, c.Pos(s.st.Pos()), "table stores with different index variables")
 			return
 		}
-		paths, ok := dpPaths(d, body, s.st.Block(), 64)
-		if !ok {
-			r.Undecided("shape:"+fk, c.Pos(s.st.Pos()), "too many paths")
-			return
-		}
-		if _, isConst := s.st.Val.(*ssa.Const); !isConst {
-			// fits[i][j] = <expression>: true on this path iff the expression is
-			a := d.val(s.st.Val)
-			pos := true
-			if strings.HasPrefix(a, "!") {
-				a, pos = a[1:], false
-			}
-			for i := range paths {
-				paths[i] = append(paths[i], literal{a, pos})
-			}
-		}
-		got = append(got, paths...)
 	}
-	// canonical atoms expected
-	atoms := map[string]bool{}
-	for _, conj := range got {
-		for _, l := range conj {
-			atoms[l.atom] = true
-		}
-	}
-	var eq, inr, opt, f11, f10 string
-	for a := range atoms {
-		switch {
-		case strings.Contains(a, ".Equal(") && strings.Contains(a, "[i]") && strings.Contains(a, "[j]"):
-			eq = a
-		case strings.HasPrefix(a, "j<len("):
-			inr = a
-		case strings.HasSuffix(a, "[i].Optional"):
-			opt = a
-		case a == "fits[i+1][j+1]":
-			f11 = a
-		case a == "fits[i+1][j]":
-			f10 = a
-		}
-	}
-	if eq == "" || inr == "" || opt == "" || f11 == "" || f10 == "" {
-		r.Bad("recurrence|"+fk, c.FnPos(fn), "conditions over: j < len(subject), profile[i] equals subject[j], profile[i].Optional, fits[i+1][j+1], fits[i+1][j]", "atoms found: "+fmtSet(atoms))
+	walkR(inner, body, map[string]bool{}, nil, cell{}, map[*ssa.BasicBlock]bool{})
+	if nPaths == 0 {
+		r.Undecided("shape:"+fk, c.FnPos(fn), "no path through one round of the inner loop")
 		return
 	}
-	want := [][]literal{{{inr, true}, {eq, true}, {f11, true}}, {{opt, true}, {f10, true}}}
-	r.Check(dnfEqual(got, want), "recurrence|"+fk, c.FnPos(fn), dnfString(want), dnfString(got))
+	r.Check(len(mism) == 0, "recurrence|"+fk, c.FnPos(fn), "fits[i][j] = (j < len(subject) ∧ profile[i] equals subject[j] ∧ fits[i+1][j+1]) ∨ (profile[i].Optional ∧ fits[i+1][j]) on each of the "+sprintf("%d", nPaths)+" paths of a round", strings.Join(head(uniq(mism), 2), " ;; "))
 	// verdict: the final answer of the ordered branch is fits[0][0]
 	okVerdict := false
 	for _, b := range fn.Blocks {
